@@ -41,6 +41,15 @@ var c19Addrs = []c19Addr{
 	{"garbage", false}, {"127.0.0.1", false}, {"", false}, {"localhost:80", false}, {"::1", false},
 }
 
+// request headers by which a client (or a proxy it talks through) may claim an address
+var c19Forwarded = []map[string]string{
+	nil,
+	{"X-Forwarded-For": "127.0.0.1"},
+	{"X-Forwarded-For": "::1, 8.8.8.8"},
+	{"X-Real-Ip": "127.0.0.1", "Forwarded": "for=127.0.0.1"},
+	{"X-Forwarded-For": "127.0.0.1, 10.0.0.1", "X-Forwarded-Host": "localhost"},
+}
+
 // login performs a POST /login and returns the session cookies.
 func c19Login(h *web.Handler, addr, password string, method string) (*httptest.ResponseRecorder, []*http.Cookie) {
 	form := url.Values{"password": {password}}
@@ -82,6 +91,25 @@ func TestC19_DecisionTable(t *testing.T) {
 				conf.Dashboard.EnableLoopbackAuthn = enforceLoopback
 				if configured {
 					conf.Dashboard.RootPassword = wos.EnvString("s3cret-pw")
+				}
+				// a handler whose login page has never been rendered: wrong passwords (empty,
+				// absent, arbitrary) are wrong from the first request on
+				fresh := web.New(nil, conf, nil)
+				for _, a := range []string{"8.8.8.8:1", "127.0.0.1:5", "10.0.0.5:9"} {
+					for gi, body := range []string{"password=", "", "password=x", "passwor=s3cret-pw", "password=%00"} {
+						r := httptest.NewRequest("POST", "/login", strings.NewReader(body))
+						r.Header.Set("Content-Type", "application/x-www-form-urlencoded")
+						r.RemoteAddr = a
+						w := httptest.NewRecorder()
+						fresh.Login(w, r)
+						n++
+						ev.Case(true, fmt.Sprintf("fresh-login %v %v %v %d %s", disable, enforceLoopback, configured, gi, a), "login-before-any-page-view")
+						for _, c := range w.Result().Cookies() {
+							if c.Name == "session" && c.Value != "" {
+								t.Fatalf("VERIF-VIOLATION property=C19 first request POST /login from %s with body %q (a wrong password) issued a session (status %d); switches disable=%v loopback_enforced=%v configured_pw=%v", a, body, w.Code, disable, enforceLoopback, configured)
+							}
+						}
+					}
 				}
 				h := web.New(nil, conf, nil)
 				other := web.New(nil, conf, nil) // "another process": same configuration, own session key
@@ -146,29 +174,35 @@ func TestC19_DecisionTable(t *testing.T) {
 				for _, a := range c19Addrs {
 					for _, cs := range cookieStates {
 						for _, m := range methods {
-							ran := false
-							probe := h.Authn(func(w http.ResponseWriter, r *http.Request) { ran = true; w.WriteHeader(204) })
-							r := httptest.NewRequest(m, "/save-integration", strings.NewReader("{}"))
-							r.RemoteAddr = a.addr
-							for _, c := range cs.cookies {
-								r.AddCookie(c)
-							}
-							w := httptest.NewRecorder()
-							probe.ServeHTTP(w, r)
-							n++
-							want := disable || (!enforceLoopback && a.loopback) || cs.valid
-							desc := fmt.Sprintf("disable=%v loopback_enforced=%v configured_pw=%v addr=%q cookie=%s method=%s", disable, enforceLoopback, configured, a.addr, cs.name, m)
-							// non-trivial: the session or the address decides (not the disable switch)
-							ev.Case(!disable, desc, fmt.Sprintf("served=%v", want))
-							if !disable && cs.name == "other-process" && ev.WantSample(4) {
-								ev.Sample(4, desc)
-							}
-							if ran != want {
-								t.Fatalf("VERIF-VIOLATION property=C19 %s: protected handler ran=%v, want %v (status %d)", desc, ran, want, w.Code)
-							}
-							if !want {
-								if loc := w.Header().Get("Location"); w.Code/100 != 3 || loc != "/login" {
-									t.Fatalf("VERIF-VIOLATION property=C19 %s: refused request answered with status %d Location %q instead of a redirect to /login", desc, w.Code, loc)
+							for _, fw := range c19Forwarded {
+								ran := false
+								probe := h.Authn(func(w http.ResponseWriter, r *http.Request) { ran = true; w.WriteHeader(204) })
+								r := httptest.NewRequest(m, "/save-integration", strings.NewReader("{}"))
+								r.RemoteAddr = a.addr
+								// client-controlled headers that name an address never count: the peer address does
+								for k, v := range fw {
+									r.Header.Set(k, v)
+								}
+								for _, c := range cs.cookies {
+									r.AddCookie(c)
+								}
+								w := httptest.NewRecorder()
+								probe.ServeHTTP(w, r)
+								n++
+								want := disable || (!enforceLoopback && a.loopback) || cs.valid
+								desc := fmt.Sprintf("disable=%v loopback_enforced=%v configured_pw=%v addr=%q cookie=%s method=%s headers=%v", disable, enforceLoopback, configured, a.addr, cs.name, m, fw)
+								// non-trivial: the session or the address decides (not the disable switch)
+								ev.Case(!disable, desc, fmt.Sprintf("served=%v", want))
+								if !disable && cs.name == "other-process" && ev.WantSample(4) {
+									ev.Sample(4, desc)
+								}
+								if ran != want {
+									t.Fatalf("VERIF-VIOLATION property=C19 %s: protected handler ran=%v, want %v (status %d)", desc, ran, want, w.Code)
+								}
+								if !want {
+									if loc := w.Header().Get("Location"); w.Code/100 != 3 || loc != "/login" {
+										t.Fatalf("VERIF-VIOLATION property=C19 %s: refused request answered with status %d Location %q instead of a redirect to /login", desc, w.Code, loc)
+									}
 								}
 							}
 						}
